@@ -577,7 +577,9 @@ func buildHistoryWorld() []string {
 	put(hist["RH"], world.Redirect(302, hist["H0"]))
 	hist["F1"], hist["F2"] = hist["U0"]+"#a", hist["U0"]+"#b"
 	hist["P1"] = strings.Replace(hist["U0"], "h1.example", "h1.example:443", 1)
-	return []string{"U0", "U1", "U2", "U3", "U4", "U5", "L3", "L2", "L1", "X0", "H0", "RH", "F1", "F2", "P1"}
+	// a redirecting URL asked for with a fragment: the source is still the plain final URL
+	hist["F3"] = hist["U1"] + "#sec"
+	return []string{"U0", "U1", "U2", "U3", "U4", "U5", "L3", "L2", "L1", "X0", "H0", "RH", "F1", "F2", "P1", "F3"}
 }
 
 type result struct {
@@ -684,7 +686,7 @@ func main() {
 		"responses: full product of status-line atoms (2 versions x 17 codes x with/without reason, 8 malformed, 10 exotic) x all header-line sequences of length <=2 over 29 atoms "+
 			"(tolerated/foreign/malformed Content-Types, confusable header names, Location, header lines longer than a 4096-byte read buffer whose tail at and around the buffer boundary reads like a Content-Type or Location) x 14 bodies x 2 tolerated sets, classified must-accept / must-reject / unspecified by a reference written from the statement; "+
 			"redirect graphs: chains of every length around each budget (jtp.Get budgets 0..3, client.FetchURL budget 20) in 5 Location styles, cycles of length 1..3, 7 kinds of bad hop at each position; "+
-			"histories: explicit-state search over fetch sequences (15 URLs: documents, relative and absolute redirects, 404, cycle, chain longer than the budget and its suffixes, the same host and path under http and a redirect to it, fragment and :443 variants) for cache sizes 1,2,3,128, "+
+			"histories: explicit-state search over fetch sequences (16 URLs: documents, relative and absolute redirects, 404, cycle, chain longer than the budget and its suffixes, the same host and path under http and a redirect to it, fragment and :443 variants, a redirecting URL with a fragment) for cache sizes 1,2,3,128, "+
 			"state = real cache contents, every fetch compared with the cold result; distinct_nontrivial = response cases that are not the baseline and are judged")
 	theWorld.Install()
 	if *ev.FlagReplay != "" {
